@@ -20,12 +20,19 @@ def lit(v):
 def script_for(frag, kind, variables):
     """A deterministic step script whose output is a function of exactly: the
     fragment id, the values of the named variables, and the *relative* content
-    of its inputs ("$@")."""
+    of its inputs ("$@").  It is restartable (removes its own partial output)
+    and has two fault hooks driven by whitelisted host variables, which are not
+    part of any digest: BOBV_FAIL=<frag> fails after partial output,
+    BOBV_KILL=<frag> kills the Bob process whose pid is in $BOBV_PIDFILE."""
     lines = ['echo "frag=%s"' % frag]
     for v in variables:
         lines.append('echo "%s=${%s-<unset>}"' % (v, v))
     lines.append('for a in "$@" ; do ( cd "$a" && find . -type f | LC_ALL=C sort | while read f ; do echo "in:$f:$(sha1sum < "$f" | cut -c1-40)" ; done ) ; done')
-    body = "{\n" + "\n".join("  " + l for l in lines) + "\n} > result-%s.txt\n" % frag
+    hooks = ('rm -f partial-*.txt\n'
+             'if [ "${BOBV_FAIL:-}" = "%s" ]; then echo partial > partial-%s.txt; exit 1; fi\n'
+             'if [ "${BOBV_KILL:-}" = "%s" ]; then echo partial > partial-%s.txt; kill -9 "$(cat "$BOBV_PIDFILE")"; sleep 5; fi\n'
+             % (frag, frag, frag, frag))
+    body = hooks + "{\n" + "\n".join("  " + l for l in lines) + "\n} > result-%s.txt\n" % frag
     return body
 
 
@@ -157,7 +164,7 @@ class Gen:
         desc = {"recipes": recipes, "classes": classes,
                 "config": {"bobMinimumVersion": "0.25"},
                 "default": {"environment": {"GLOBAL1": rng.choice(SAFE_VALS), "GLOBAL2": "unused"},
-                            "whitelist": ["FPHOST"]}}
+                            "whitelist": ["FPHOST", "BOBV_FAIL", "BOBV_KILL", "BOBV_PIDFILE"]}}
         return desc
 
 
